@@ -26,8 +26,10 @@ def bad_path_scenarios(ctx, n):
         rng = vlib.rng_for(ctx["seed"], "C16bad/%d" % i)
         w = runprops.world_for("bad", ctx["seed"], i)
         pos = rng.randrange(len(w.scans) + 1)
-        kind = rng.choice(["relative", "missing", "file"])
-        out.append((runprops.Scenario("bad", ctx["seed"], i, {"pos": pos, "kind": kind}), w))
+        kind = rng.choice(["relative", "missing", "file", "nested-missing", "nested-file"])
+        # replace one of the paths by the bad one, or (scan paths only) add the bad one next to the valid ones
+        mode = rng.choice(["replace", "insert"]) if not kind.startswith("nested") else "insert"
+        out.append((runprops.Scenario("bad", ctx["seed"], i, {"pos": pos, "kind": kind, "mode": mode}), w))
     return out
 
 
@@ -51,8 +53,13 @@ def run_bad(ctx, scen):
             scans = [os.path.join(btree, *s) for s in w.scans]
             export = os.path.join(btree, *w.export)
             pos, kind = sc.variant["pos"], sc.variant["kind"]
-            bad = {"relative": b"relative/dir", "missing": os.path.join(btree, b"no-such-dir"), "file": os.path.join(btree, b"loose.bin")}[kind]
-            if pos < len(scans):
+            first_file = next((os.path.join(btree, *k) for k, v in sorted(w.files.items()) if v[0] == "file" and w.scans and k[:len(w.scans[0])] == tuple(w.scans[0])), os.path.join(btree, b"loose.bin"))
+            bad = {"relative": b"relative/dir", "missing": os.path.join(btree, b"no-such-dir"), "file": os.path.join(btree, b"loose.bin"),
+                   "nested-missing": os.path.join(scans[0], b"no-such-child") if scans else os.path.join(btree, b"no-such-dir"),
+                   "nested-file": first_file}[kind]
+            if sc.variant.get("mode") == "insert":
+                scans.insert(min(pos, len(scans)), bad)     # the valid directories stay; the bad one may lie inside one of them
+            elif pos < len(scans):
                 scans[pos] = bad
             else:
                 export = bad
@@ -258,7 +265,7 @@ def correspondence(ctx):
         if bad and len(findings) < 5:
             findings.append({"scenario": {"tag": "cli", "world_seed": ctx["seed"], "index": c["i"]}, "violated_clause": bad, "stderr": c["stderr"][-400:]})
     out = runprops.result("C16", ctx, runs, findings, broken, dict(stats),
-                          "bad path of every kind (relative / missing / a file) in every position (each scan directory, the export directory); no loadable torrent; unloadable documents among loadable ones; degenerate loadable torrents (padding-only pieces, empty files, 2^46-byte declared lengths, odd names); the CLI binary with unloadable torrent files; each run in a child process",
+                          "bad path of every kind (relative / missing / a file; also missing or a file INSIDE a valid scan directory, added next to the valid ones) in every position (each scan directory, the export directory); no loadable torrent; unloadable documents among loadable ones; degenerate loadable torrents (padding-only pieces, empty files, 2^46-byte declared lengths, odd names); the CLI binary with unloadable torrent files; each run in a child process",
                           "bad_path_no_effect (prelude program), solve_prog_good (no panic), load_total proved; tied to the code by trace validation and child-process outcomes")
     out["known_lines"] = sorted(known_lines)
     out["evaluations"] = len(runs) + stats["cli runs"]
